@@ -21,31 +21,47 @@ from pathlib import Path
 from harness.translate import c03_tables
 
 ID = "C03"
-LEVEL_TEXT = ("Theorems by structural induction over every expression tree (all node types Griffe maps, all operators, unbounded depth and width): "
-              "flat iteration is the recursive expansion of one-layer iteration and str() is its concatenation; building with string parsing on equals "
-              "building the tree in which exactly the strings selected by the stated rule (top flag on, not under a Literal[...] slice, not literal text of an "
-              "f-string, not in a subscripted value, not in a lambda default, content parses) are replaced by their parsed code; every Name / attribute name "
-              "of that tree appears, in order, as a name piece (modulo dropped format specs / await); and str(build e) equals a precedence-aware reference "
-              "printer character for character whenever e touches none of the eight decidable known-gap families that remain after the repairs (five defects were fixed in /repo), each refuted by a computed witness. "
-              "The reference printer is tied to CPython's parser, the model to Griffe by exhaustive depth-2 and random depth-6 differential runs, "
-              "the operator/node tables are regenerated from expressions.py on every run.")
-LEVEL_NOTE = ("Trusted: Coq kernel, extraction, translator harness/translate/c03_tables.py, the ast->pyexpr abstraction (incl. CPython's own parse of "
-              "each string constant and the Literal-resolution flag computed from the module's imports), CPython's parser/ast.unparse as authority. "
-              "Lambda parameter alignment is taken in CPython order (equality with get_parameters is C02's theorem). Constant spelling is repr (trusted). "
-              "ExprKeyword.function, modernize(), canonical_path resolution and as_dict are outside the model. The reference printer does not print f-string "
-              "conversions/format specs or literal text needing escapes (those inputs are inside gap family F3 and excluded from the printer's oracle tie). "
-              "Some gap predicates over-approximate (starred operands, every dict comprehension): they only weaken the theorem, never the check.")
+LEVEL_TEXT = ("Theorems by structural induction over every expression tree (all node types Griffe maps, all operators, unbounded depth and width), stated for "
+              "EVERY combination fx of the ten rendering repairs prepared for this property (the translator detects which ones the tree contains; fx_none = the "
+              "printer as it is in /repo today, fx_all = with all of them): flat iteration is the recursive expansion of one-layer iteration (parentheses "
+              "included) and str() is its concatenation; building with string parsing on equals building the tree in which exactly the strings selected by the "
+              "stated rule are replaced by their parsed code (flag on, not under a slice of a name chain that the module's imports resolve to typing.Literal "
+              "-- the resolution, i.e. canonical_path, is inside the model --, not literal text of an f-string, not in a subscripted value, not in a lambda "
+              "default, content parses); every Name / attribute name of that tree appears, in order, as a name piece; and str(build e) equals a "
+              "precedence-aware reference printer (conversions, format specs and escapes included) character for character whenever e touches none of the "
+              "decidable gap families that the repairs present in the tree leave. For the printer with every repair the theorem holds with NO grouping, "
+              "f-string, lambda, generator, empty-tuple, yield-operand or integer-attribute hypothesis (C03_render_eq_reference_repaired: only await, a bare "
+              "yield in an expression position and non-f-string-shaped trees are excluded); for the printer without repairs each family is refuted by a "
+              "computed witness. What is stored does not depend on earlier builds (the model is a function; checked on sequences of modules in one process). "
+              "The reference printer is tied to CPython's parser, the model to Griffe by exhaustive depth-2 and random depth-6 differential runs on str, "
+              "class, flat and one-layer pieces, parent links, paths, canonical paths and modernize(); operator, node and precedence tables are regenerated "
+              "from expressions.py on every run.")
+LEVEL_NOTE = ("Trusted: Coq kernel, extraction, translator harness/translate/c03_tables.py (dict-literal shapes; one syntactic marker per repair, old and new "
+              "shape both checked, fails closed), the ast->pyexpr abstraction (incl. CPython's own parse of each string constant and the reading of the "
+              "module header's import statements into the name table; the harness's own Literal flags are cross-checked against the model's resolution), "
+              "CPython 3.12's parser/ast.unparse as authority (nested same-quote f-strings are 3.12 syntax). Lambda parameter alignment is taken in CPython "
+              "order (equality with get_parameters is C02's theorem). Constant spelling is repr (trusted; wf states that an int's repr is its digits). "
+              "The operand-precedence requirement of each slot of each Expr*.iterate is hand-modelled and tied by the exhaustive slot x child product, not "
+              "translated. as_dict is outside the model; ExprKeyword.canonical_path of a keyword passed to a called constant raises (F15) and is not compared. "
+              "The ten repairs are prepared as fix commits in a scratch clone and NOT landed: on /repo the model is fx_none and the findings stay known; "
+              "REQUIRED_FIXES pins the repairs once they land.")
 MODEL = ("Model.C03_run", "run_C03")
 COQ_TARGETS = ["Proofs/C03_expr.vo", "Proofs/C03_repaired.vo"]
-RULE = ("exhaustive: every (parent node type, operand slot) x every representative child (all node types, all 4+13+2+10 operators) at depth 2, rotated "
-        "over the 7 storing positions (assignment value, annotation, parameter annotation/default, returns, decorator, base class) with and without "
-        "`from __future__ import annotations`; random ast trees to depth 6 (quick) in two streams: precedence-respecting (mostly gap-free) and unrestricted; "
-        "string-annotation stream (strings whose content is code, Literal[...] through every import spelling, nested quoting, unparseable text). "
-        "non-trivial = depth >= 2 or a string constant; distinct by (position, future flag, source text)")
-TRUSTED = ["translator harness/translate/c03_tables.py (whitelisted dict-literal shapes of expressions.py; fails closed)",
-           "abstraction: harness maps ast.parse(module) nodes to the model's pyexpr, calling ast.parse(value, mode='eval') for every str constant"]
+RULE = ("exhaustive: every (parent node type, operand slot) x every representative child (all node types, all 4+13+2+10 operators, equal-valued constants of "
+        "different types) at depth 2, rotated over the 7 storing positions (assignment value, annotation, parameter annotation/default, returns, decorator, "
+        "base class) with and without `from __future__ import annotations`; every ordered pair of ==-equal constants inside one expression; history "
+        "sequences: 2-3 modules visited one after the other in one process, sharing what a cache could key on while requiring different output (equal "
+        "constants, the same string as annotation and as value, the same spelling bound by other imports, with/without postponed evaluation), each also in "
+        "reverse order; random ast trees to depth 6 in two streams: precedence-respecting and unrestricted; string-annotation stream (strings whose content is "
+        "code, Literal[...] through every import spelling incl. chains with a non-name root, two module headers binding the same names differently, nested "
+        "quoting, unparseable text). non-trivial = depth >= 2 or a string constant; distinct by (position, future flag, source text). A failure that does "
+        "not reproduce from its input alone in a fresh interpreter is reported with the minimised history after which it does.")
+TRUSTED = ["translator harness/translate/c03_tables.py (whitelisted dict-literal shapes of expressions.py; per-repair syntactic markers; fails closed)",
+           "abstraction: harness maps ast.parse(module) nodes to the model's pyexpr, calling ast.parse(value, mode='eval') for every str constant, and the "
+           "module header's imports to the name table"]
 ASSUMPTIONS = ["lambda parameters reach ExprLambda in CPython order with right-aligned defaults (C02_parameters_eq_cpython)",
-               "string constants in generated cases are ASCII; names never shadow the typing imports of the module header"]
+               "string constants in generated cases are ASCII; names never shadow the imports of the module header; names used in generated expressions are "
+               "not members of the generated module"]
 TRANSLATOR_NAME = "harness/translate/c03_tables.py"
 
 logging.disable(logging.CRITICAL)
@@ -61,8 +77,12 @@ FX = {f: False for f in c03_tables.FIXES}
 
 
 def load_fixes():
-    fixes, _ = c03_tables.read_fixes()
+    # lenient: a repair whose marker is ambiguous (somebody changed that code) is judged as present, so that what the
+    # tree does wrong there is reported with a failing input; the translator itself fails closed on it
+    fixes, _ = c03_tables.read_fixes(lenient=True)
     FX.update(fixes)
+    if c03_tables.read_fixes.undecided:
+        raise c03_tables.TranslatorError("; ".join(c03_tables.read_fixes.undecided))
     missing = [f for f in REQUIRED_FIXES if not fixes[f]]
     if missing:
         for f in missing:
